@@ -16,6 +16,7 @@ import (
 	"go/printer"
 	"go/token"
 	"os"
+	"regexp"
 	"sort"
 	"strconv"
 	"strings"
@@ -424,7 +425,11 @@ func main() {
 	}
 	sb.WriteString("]\n\n")
 	nfacts += len(table)
-	for _, cmd := range []string{"feefilter", "sendcmpct", "ping"} {
+	// ---- the dispatch mirror of the harness's second stream (client/network/verif_export.go VerifDispatch)
+	//      must be a clause-by-clause copy of this switch: any difference stops the run (broken tie)
+	nfacts += compareMirror(sw)
+
+	for _, cmd := range []string{"feefilter", "sendcmpct", "ping", "authack"} {
 		sk, ok := inline[cmd]
 		if !ok {
 			die(fmt.Errorf("Run: case %q not found", cmd))
@@ -596,6 +601,105 @@ func main() {
 		die(err)
 	}
 	fmt.Printf("FACTS %d\n", nfacts)
+}
+
+// clauseText prints the body of a case clause, one statement per entry.
+func clauseText(cc *ast.CaseClause) []string {
+	var out []string
+	for _, b := range cc.Body {
+		out = append(out, show(b))
+	}
+	return out
+}
+
+var (
+	reCmdPl      = regexp.MustCompile(`\bcmd\.pl\b`)
+	reCmdTrusted = regexp.MustCompile(`\bcmd\.trusted\b`)
+	reCmdCmd     = regexp.MustCompile(`\bcmd\.cmd\b`)
+	reCmd        = regexp.MustCompile(`\bcmd\b`)
+)
+
+// compareMirror checks that VerifDispatch's `switch cmd` has the same clauses, in the same order, with
+// the same statements as Run's `switch cmd.cmd` once Run's cmd.pl / cmd.trusted / cmd are written
+// pl / trusted / m. The default clause is exempt (Run's is empty, the mirror's reports "unknown").
+// Returns the number of clauses compared.
+func compareMirror(runSw *ast.SwitchStmt) int {
+	saved := fset
+	defer func() { fset = saved }()
+	runText := map[string][]string{}
+	var runOrder []string
+	for _, c := range runSw.Body.List {
+		cc := c.(*ast.CaseClause)
+		if cc.List == nil {
+			continue
+		}
+		var labels []string
+		for _, l := range cc.List {
+			labels = append(labels, show(l))
+		}
+		key := strings.Join(labels, ",")
+		var body []string
+		for _, t := range clauseText(cc) {
+			t = reCmdPl.ReplaceAllString(t, "pl")
+			t = reCmdTrusted.ReplaceAllString(t, "trusted")
+			t = reCmdCmd.ReplaceAllString(t, "cmd")
+			t = reCmd.ReplaceAllString(t, "m")
+			body = append(body, t)
+		}
+		runText[key] = body
+		runOrder = append(runOrder, key)
+	}
+	vf, err := vtrans.Parse("client/network/verif_export.go")
+	if err != nil {
+		die(err)
+	}
+	fset = vf.Fset
+	vd, err := vf.Func("OneConnection", "VerifDispatch")
+	if err != nil {
+		die(err)
+	}
+	var msw *ast.SwitchStmt
+	ast.Inspect(vd.Body, func(n ast.Node) bool {
+		if s, ok := n.(*ast.SwitchStmt); ok && s.Tag != nil && show(s.Tag) == "cmd" {
+			msw = s
+			return false
+		}
+		return true
+	})
+	if msw == nil {
+		die(fmt.Errorf("VerifDispatch: `switch cmd` not found"))
+	}
+	var mirOrder []string
+	hasDefault := false
+	for _, c := range msw.Body.List {
+		cc := c.(*ast.CaseClause)
+		if cc.List == nil {
+			hasDefault = true
+			continue
+		}
+		var labels []string
+		for _, l := range cc.List {
+			labels = append(labels, show(l))
+		}
+		key := strings.Join(labels, ",")
+		mirOrder = append(mirOrder, key)
+		want, ok := runText[key]
+		if !ok {
+			die(fmt.Errorf("dispatch mirror: VerifDispatch has a case %s that Run does not have", key))
+		}
+		got := clauseText(cc)
+		if strings.Join(got, "\n") != strings.Join(want, "\n") {
+			die(fmt.Errorf("dispatch mirror: case %s differs between Run and VerifDispatch\n--- Run (cmd.pl/cmd.trusted/cmd written pl/trusted/m)\n%s\n--- VerifDispatch\n%s",
+				key, strings.Join(want, "\n"), strings.Join(got, "\n")))
+		}
+	}
+	if strings.Join(mirOrder, ";") != strings.Join(runOrder, ";") {
+		die(fmt.Errorf("dispatch mirror: the cases of VerifDispatch (%s) are not the cases of Run (%s)", strings.Join(mirOrder, ";"), strings.Join(runOrder, ";")))
+	}
+	if !hasDefault {
+		die(fmt.Errorf("dispatch mirror: VerifDispatch has no default clause"))
+	}
+	return len(runOrder)
 }
 
 func argList(ce *ast.CallExpr) string {
